@@ -313,6 +313,8 @@ class Prog:
                 p.model.add_objective(name, **kw)
             else:
                 p.model.add_constraint(name, **kw)
+        if getattr(self, 'pre_setup', None):
+            self.pre_setup(p, groups, comps)
         p.setup(**setup_kw)
         self._p = p
         self._comps = comps
